@@ -2,7 +2,8 @@
 from lib import *
 
 OPS = ["tt", "decompress_all", "decompress_sel", "cp_to_tt", "transpose", "clone", "numpy",
-       "orthogonalize", "round_tt", "round_tucker", "round", "tn_round_tt", "tn_round_tucker", "tn_round"]
+       "orthogonalize", "left_orthogonalize", "right_orthogonalize",
+       "round_tt", "round_tucker", "round", "tn_round_tt", "tn_round_tucker", "tn_round"]
 EXACT = {"tt", "decompress_all", "decompress_sel", "cp_to_tt", "transpose", "clone", "numpy"}
 
 
@@ -93,11 +94,17 @@ class Prop:
                     R = np.array(tj["modes"][0]["core"]).shape[1]
                     if R == 3 and np.linalg.matrix_rank(dense_np(tj).reshape(shape[0], -1)) == 3:
                         break
-                w = np.array([1.0, 1e-2, 1e-4]) * scale
-                tj["modes"][0]["core"] = (np.array(tj["modes"][0]["core"], dtype=float) * w[None, :]).tolist()
-                for op in ROUND_OPS:
-                    add(tj, op, rel=True)
-                    cases[-1]["tags"].update(data="graded", scale="%g" % scale)
+                base = np.array(tj["modes"][0]["core"], dtype=float)
+                for grade, wts in (("graded", [1.0, 1e-2, 1e-4]), ("faint", [1.0, 3e-7, 2e-9])):
+                    # "faint": a genuine component 2e-9 of the largest - far above the 1e-14 default tolerance
+                    if grade == "faint" and rep > 0 and quick:
+                        continue
+                    w = np.array(wts) * scale
+                    tj2 = json.loads(json.dumps(tj))
+                    tj2["modes"][0]["core"] = (base * w[None, :]).tolist()
+                    for op in ROUND_OPS:
+                        add(tj2, op, rel=True)
+                        cases[-1]["tags"].update(data=grade, scale="%g" % scale)
         # the same array in a badly scaled gauge: columns of a Tucker factor multiplied by powers of two, the matching
         # core slices by the inverse powers (exact in binary floating point).  A component that is ~1e-16 in the core
         # but O(1) in the array must survive every re-expression
@@ -139,6 +146,9 @@ class Prop:
                 add(tj, op, dim=sorted(rng.sample(range(N), rng.randint(0, N))), dd=dd)
         elif op == "orthogonalize":
             add(tj, op, mu=rng.randint(-N, N - 1), dd=dd)
+        elif op in ("left_orthogonalize", "right_orthogonalize"):
+            if N >= 2:        # the single-core steps, called directly on whatever format the tensor is in
+                add(tj, op, mu=rng.randint(0, N - 2) if op[0] == "l" else rng.randint(1, N - 1), dd=dd)
         else:
             add(tj, op, dd=dd)
 
@@ -154,6 +164,8 @@ class Prop:
         if op == "numpy": return t
         if op == "orthogonalize":
             r = t.clone(); r.orthogonalize(case["mu"]); return r
+        if op in ("left_orthogonalize", "right_orthogonalize"):
+            r = t.clone(); getattr(r, op)(case["mu"]); return r
         if op in ("round_tt", "round_tucker", "round"):
             r = t.clone(); getattr(r, op)(); return r
         if op == "tn_round_tt": return tn.round_tt(t)
